@@ -40,8 +40,25 @@ func NewBuilderCase(g *Gen, id int) *Case {
 		node = &Node{Kind: KInt}
 	}
 	n := 1 + r.Intn(8)
+	// the same modifier called twice, the earlier call with options and the later one without (and
+	// the other way round): the last call must win completely
+	twice := -1
+	if r.P(15) {
+		if n < 2 {
+			n = 2
+		}
+		twice = r.Intn(2)
+	}
 	for k := 0; k < n; k++ {
 		c := r.Intn(100)
+		forcedOpts := -1 // 1: options forced, 0: no options
+		if twice >= 0 && (k == 0 || k == n-1) {
+			c = 70 // Required
+			forcedOpts = 0
+			if (k == 0) == (twice == 0) {
+				forcedOpts = 1
+			}
+		}
 		switch {
 		case c < 18 && !isInt:
 			calls = append(calls, "CNot")
@@ -115,6 +132,14 @@ func NewBuilderCase(g *Gen, id int) *Case {
 			applyI = append(applyI, func(s *z.NumberSchema[int]) { s.TestFunc(userTest(rec, t, "test"), o...) })
 		case c < 75:
 			o, co := g.bopts()
+			switch forcedOpts {
+			case 0:
+				o, co = nil, "{| o_msg := None; o_code := None; o_path := None |}"
+			case 1:
+				m, cd := fmt.Sprintf("msg%d", r.Intn(1000)), fmt.Sprintf("code%d", r.Intn(1000))
+				t := TestSpec{OptMsg: &m, OptCode: &cd}
+				o, co = testOpts(&t), fmt.Sprintf("{| o_msg := %s; o_code := %s; o_path := None |}", CoqOptStr(t.OptMsg), CoqOptStr(t.OptCode))
+			}
 			calls = append(calls, "CRequired "+co)
 			apply = append(apply, func(s *z.StringSchema[string]) { s.Required(o...) })
 			applyI = append(applyI, func(s *z.NumberSchema[int]) { s.Required(o...) })
